@@ -224,6 +224,7 @@ func (p *Parser) match(tokenType tokType) error {
 }
 
 func (p *Parser) led(tokenType tokType, node ASTNode) (ASTNode, error) {
+	p.verifStep("led", tokenType)
 	switch tokenType {
 	case tDot:
 		if p.current() != tStar {
@@ -328,6 +329,7 @@ func (p *Parser) led(tokenType tokType, node ASTNode) (ASTNode, error) {
 }
 
 func (p *Parser) nud(token token) (ASTNode, error) {
+	p.verifStep("nud", token.tokenType)
 	switch token.tokenType {
 	case tJSONLiteral:
 		var parsed interface{}
